@@ -10,7 +10,7 @@ import (
 //zzv:bound V1f = real validateFans on 1..2 fan entries, symbolic ids and curve references, any subset of back ends, controlAlgorithm nil / empty / direct (limit any int or none) / pid (any gains): accepted only if ids are distinct, exactly one backend, the curve reference is non-empty and defined, a direct limit is > 0 and pid gains are not all zero
 //zzv:bound V1w = real validateConfig on a small valid configuration with a defect injected in the sensors, curves or fans section (or none), with or without a command sensor / command fan, configuration file with any owner, group and mode: a defect in any section is rejected whatever the permission check says; an unsafe configuration file is rejected when command entries exist (C18 A4); a sound configuration is accepted
 //zzv:bound V3 = the struct images of the forms documented in README.md / fan2go.yaml (hwmon, file, cmd sensors and fans, linear min/max and steps, pid, function curves of every type nested two deep, controlAlgorithm 'pid' and 'direct' via the real UnmarshalText, direct with maxPwmChangePerCycle) are accepted
-//zzv:outside the YAML -> viper -> mapstructure loader (reflection); curve graphs with more than 3 nodes and cycles longer than 3; the JSON spelling of controlAlgorithm (encoding/json)
+//zzv:outside the YAML -> viper -> mapstructure loader (reflection); symbolic curve graphs with more than 3 nodes (larger graphs only from the concrete family V1g); the JSON spelling of controlAlgorithm (encoding/json)
 //zzv:opts loopbound=400
 
 func zzSensorEntry(tag string) SensorConfig {
@@ -313,5 +313,77 @@ func ZZ_C11_V1w_WholeConfig() {
 	}
 	if defect == 0 {
 		zzv.Assert(zzv.Implies(zzv.Or(safe, withCmd == 0), err == nil), "V1w.sound_configuration_accepted")
+	}
+}
+
+//zzv:bound V1g = real validateCurves on 8-node curve graphs from a concrete family (the symbolic graph harness V1c stops at 3 nodes): rings of every length 1..8 starting at node 0 and at node 3 (remaining nodes are linear leaves or a chain leading into the ring), a ring running through a first, a middle and a last member, and the DAGs chain-of-8, complete DAG (every i -> every j > i), diamond, binary tree, two roots sharing a subtree: every graph with a ring is rejected, every DAG accepted
+
+// zzGraph8 builds the 8-node configuration of family member g; cyclic tells whether it has a ring.
+func zzGraph8(g int) (cfg *Configuration, cyclic bool) {
+	const n = 8
+	id := func(i int) string { return "n" + string(rune('0'+i)) }
+	edges := make([][]int, n)
+	switch {
+	case g < 8: // ring of length g+1 on nodes 0..g
+		l := g + 1
+		for i := 0; i < l; i++ {
+			edges[i] = []int{(i + 1) % l}
+		}
+		cyclic = true
+	case g < 13: // ring of length g-7 (1..5) on nodes 3.., with a chain 0 -> 1 -> 2 -> 3 leading into it
+		l := g - 7
+		edges[0], edges[1], edges[2] = []int{1}, []int{2}, []int{3}
+		for i := 0; i < l; i++ {
+			edges[3+i] = []int{3 + (i+1)%l}
+		}
+		cyclic = true
+	case g == 13: // ring through a first, a middle and a last member: 0 -> {1, 6, 7}, 1 -> {7, 2, 6}, 2 -> {6, 0}
+		edges[0], edges[1], edges[2] = []int{1, 6, 7}, []int{7, 2, 6}, []int{6, 0}
+		cyclic = true
+	case g == 14: // chain of 8
+		for i := 0; i < n-1; i++ {
+			edges[i] = []int{i + 1}
+		}
+	case g == 15: // complete DAG
+		for i := 0; i < n-1; i++ {
+			for j := i + 1; j < n; j++ {
+				edges[i] = append(edges[i], j)
+			}
+		}
+	case g == 16: // diamonds
+		edges[0], edges[1], edges[2], edges[3] = []int{1, 2}, []int{3}, []int{3}, []int{4, 5}
+		edges[4], edges[5] = []int{6}, []int{6}
+	case g == 17: // binary tree
+		edges[0], edges[1], edges[2] = []int{1, 2}, []int{3, 4}, []int{5, 6}
+		edges[3] = []int{7}
+	default: // two roots sharing a subtree
+		edges[0], edges[1], edges[2], edges[3] = []int{2}, []int{2}, []int{3, 4}, []int{5}
+	}
+	cfg = &Configuration{Sensors: []SensorConfig{{ID: "s", File: &FileSensorConfig{Path: "/tmp/t"}}}}
+	for i := 0; i < n; i++ {
+		c := CurveConfig{ID: id(i)}
+		if len(edges[i]) == 0 {
+			c.Linear = &LinearCurveConfig{Sensor: "s", Min: 40, Max: 80}
+		} else {
+			var m []string
+			for _, j := range edges[i] {
+				m = append(m, id(j))
+			}
+			c.Function = &FunctionCurveConfig{Type: FunctionMaximum, Curves: m}
+		}
+		cfg.Curves = append(cfg.Curves, c)
+	}
+	return
+}
+
+func ZZ_C11_V1g_LargerGraphs() {
+	g := zzv.Choice("graph", 19)
+	cfg, cyclic := zzGraph8(g)
+	err := validateCurves(cfg)
+	zzv.RecordB("accepted", err == nil)
+	if cyclic {
+		zzv.Assert(err != nil, "V1g.graph_with_a_ring_is_rejected")
+	} else {
+		zzv.Assert(err == nil, "V1g.acyclic_graph_is_accepted")
 	}
 }
